@@ -267,4 +267,36 @@ Section Init.
         reflexivity.
       + exists 0. rewrite mon_inplace, M5. reflexivity.
   Qed.
+
+  Lemma mkc_quiet_byte mem idle crc app il tk :
+    card_byte (MKC mem idle crc app il false tk [] PIdle) 255 = (MKC mem idle crc app il false tk [] PIdle, 255).
+  Proof. apply card_byte_quiet; [reflexivity|reflexivity|left; reflexivity]. Qed.
+
+  (* C12_init, in full: from any card state in which CMD0 can be received *)
+  Lemma acquire_sys c t h :
+    k_kind c = kd -> k_csd c = csd -> k_tim c = tim ->
+    c_fbuf c = [] -> c_phase c = PIdle -> mon t = inl h -> h_mode h = HFree ->
+    exists t' tk', acquire card card_spi o (sys c t None) =
+                 (Ok tt, sys (MKC (c_mem c) false (use_crc o) false O false tk' [] PIdle) t' (Some (type_of kd))) /\
+               mon t' = inl (mkh HFree 255 IReady (use_crc o) false).
+  Proof.
+    intros Hk Hc Ht Hf Hp Hm Hmode.
+    destruct (acquire_probe_sys c t None h Hk Hc Ht Hf Hp Hm Hmode) as (t1 & tk1 & E1 & last1 & M1).
+    eexists _, tk1. split.
+    - assert (EI : acquire_inner card card_spi o (sys c t None) =
+                   (Ok tt, sys (MKC (c_mem c) false (use_crc o) false O false tk1 [] PIdle) t1 (Some (type_of kd)))).
+      { unfold acquire_inner, bind. rewrite E1. reflexivity. }
+      unfold acquire. rewrite EI.
+      rewrite (read_byte_sys _ t1 (Some (type_of kd)) _ 255 (mkc_quiet_byte (c_mem c) false (use_crc o) false O tk1)).
+      reflexivity.
+    - rewrite mon_transfer1, M1. reflexivity.
+  Qed.
+
+  Lemma check_init_sys c t h :
+    k_kind c = kd -> k_csd c = csd -> k_tim c = tim ->
+    c_fbuf c = [] -> c_phase c = PIdle -> mon t = inl h -> h_mode h = HFree ->
+    exists t' tk', check_init card card_spi o (sys c t None) =
+                 (Ok tt, sys (MKC (c_mem c) false (use_crc o) false O false tk' [] PIdle) t' (Some (type_of kd))) /\
+               mon t' = inl (mkh HFree 255 IReady (use_crc o) false).
+  Proof. intros. unfold check_init, bind, get_ctype. cbn [ctype sys]. eapply acquire_sys; eassumption. Qed.
 End Init.
